@@ -39,6 +39,42 @@ def is_live_end(fn, n):
     return base.is_call('begin') and mentions(base, 'addresses_') and lin(fn, off) == Lin(0, {'Size': 1, 'free_size_': -1})
 
 
+def filter_form_ok(fn, flag):
+    """the function returns true when `flag` is false and is_in_white_list(addr) otherwise: `!flag || in(addr)`, or `if ( !flag ) return true; return in(addr);` and the like"""
+    outs = []
+
+    def unfold(v, ats):
+        v = strip_casts(v)
+        if v.k == 'BinaryOperator' and v.o == '||':
+            # a || b : true when a, else b
+            return unfold_true(v.c[0], ats) + unfold(v.c[1], ats + atoms(v.c[0], False))
+        if v.k == 'ConditionalOperator':
+            return unfold(v.c[1], ats + atoms(v.c[0], True)) + unfold(v.c[2], ats + atoms(v.c[0], False))
+        return [(v, ats)]
+
+    def unfold_true(c, ats):
+        return [('true', ats + atoms(c, True))]
+    for r in fn.returns():
+        if ret_value(r) is None:
+            return False
+        outs += unfold(ret_value(r), guard_atoms(fn, r))
+    seen_true = seen_list = False
+    for v, ats in outs:
+        off = has_atom(ats, lambda n: is_name(n, flag), {'=='}, lambda o: cval(o) == 0)
+        on = has_atom(ats, lambda n: is_name(n, flag), {'!='}, lambda o: cval(o) == 0)
+        if v == 'true' or (not isinstance(v, str) and cval(v) == 1):
+            if not off:
+                return False
+            seen_true = True
+        elif not isinstance(v, str) and v.is_call('is_in_white_list') and len(v.args()) == 1 and is_name(v.args()[0], fn.params[0]['n']):
+            if not on:
+                return False
+            seen_list = True
+        else:
+            return False
+    return seen_true and seen_list
+
+
 def deref_of(n):
     n = strip_casts(n)
     if n.k in ('UnaryOperator', 'CXXOperatorCallExpr') and n.o == '*' and n.c:
@@ -175,13 +211,7 @@ def run(chk, facts, tier):
         soft, _ = soft_and_radio(facts, 'is_%s_request_in_filter' % kind)
         chk.require(len(soft) == 1, 'software is_%s_request_in_filter not found' % kind)
         for fn in soft:
-            r = fn.returns()
-            ok = False
-            if len(r) == 1:
-                c = ret_value(r[0])
-                if c.k == 'BinaryOperator' and c.o == '||':
-                    l, rr = strip_casts(c.c[0]), strip_casts(c.c[1])
-                    ok = l.k == 'UnaryOperator' and l.o == '!' and is_name(l.c[0], flag) and rr.is_call('is_in_white_list') and is_name(rr.args()[0], fn.params[0]['n'])
+            ok = filter_form_ok(fn, flag)
             chk.instance('filter-shape', fn, 'return !%s || is_in_white_list(addr)' % flag, ok, '' if ok else 'the %s filter does not accept exactly (filter off or address in the list): wrong flag or wrong test' % kind, key='is_%s_request_in_filter' % kind)
         soft, _ = soft_and_radio(facts, '%s_request_filter' % kind)
         chk.require(len(soft) == 2, 'software %s_request_filter setter/getter not found' % kind)
